@@ -174,6 +174,56 @@ Section Unquote.
   Definition to_rune (v : N) : Z :=
     if wrap && (0x80000000 <=? v) then Z.of_N v - 0x100000000 else Z.of_N v.
 
+  (* unquoteChar, the switch on the character [e] after the escape introducer;
+     [s2] is what follows it *)
+  Definition unquote_escape (q : qinfo) (e : N) (s2 : str) : outcome (Z * bool * str) :=
+    let simple (v : N) := Ok (Z.of_N v, false, s2) in
+    if e =? 97 then simple 7
+    else if e =? 98 then simple 8
+    else if e =? 102 then simple 12
+    else if e =? 110 then simple 10
+    else if e =? 114 then simple 13
+    else if e =? 116 then simple 9
+    else if e =? 118 then simple 11
+    else if e =? 47 then simple 47
+    else if (e =? 120) || (e =? 117) || (e =? 85) then
+      let n := if e =? 120 then 2%nat else if e =? 117 then 4%nat else 8%nat in
+      if Nat.ltb (length s2) n then Err ESyntax
+      else match hex_value (firstn n s2) 0 with
+           | None => Err ESyntax
+           | Some v =>
+             let s3 := skipn n s2 in
+             if e =? 120 then
+               if q_char q =? ch_dq then Err ESyntax
+               else Ok (Z.of_N v, false, s3)
+             else
+               let vr := to_rune v in
+               if (Z.of_N max_rune <? vr)%Z then Err ESyntax
+               else Ok (vr, true, s3)
+           end
+    else if in_range 48 55 e then
+      if q_char q =? ch_dq then Err ESyntax
+      else match s2 with
+           | d1 :: d2 :: s3 =>
+             if in_range 48 55 d1 && in_range 48 55 d2 then
+               let v := ((e - 48) * 8 + (d1 - 48)) * 8 + (d2 - 48) in
+               if 255 <? v then Err ESyntax else Ok (Z.of_N v, false, s3)
+             else Err ESyntax
+           | _ => Err ESyntax
+           end
+    else if e =? ch_bs then simple ch_bs
+    else if (e =? ch_sq) || (e =? ch_dq) then
+      if negb (e =? q_char q) then Err ESyntax else simple e
+    else if e =? 40 then
+      match s2 with [] => Ok (terminated_by_expr, false, []) | _ => Err ESyntax end
+    else if e =? ch_cr then
+      match s2 with
+      | c2 :: s3 => if c2 =? ch_nl then Ok (escaped_newline, false, s3) else Err ESyntax
+      | [] => Err ESyntax
+      end
+    else if e =? ch_nl then Ok (escaped_newline, false, s2)
+    else Err ESyntax.
+
   (* unquoteChar: Ok (value, multibyte, tail); Panic when s is empty (s[0]) *)
   Definition unquote_char (s : str) (q : qinfo) : outcome (Z * bool * str) :=
     match s with
@@ -200,53 +250,7 @@ Section Unquote.
         | [] => Ok (Z.of_N ch_bs, false, t)
         | e :: s2 =>
           if negb (prefixb (hashes (q_numhash q)) t) then Ok (Z.of_N ch_bs, false, t)
-          else
-            let simple (v : N) := Ok (Z.of_N v, false, s2) in
-            if e =? 97 then simple 7
-            else if e =? 98 then simple 8
-            else if e =? 102 then simple 12
-            else if e =? 110 then simple 10
-            else if e =? 114 then simple 13
-            else if e =? 116 then simple 9
-            else if e =? 118 then simple 11
-            else if e =? 47 then simple 47
-            else if (e =? 120) || (e =? 117) || (e =? 85) then
-              let n := if e =? 120 then 2%nat else if e =? 117 then 4%nat else 8%nat in
-              if Nat.ltb (length s2) n then Err ESyntax
-              else match hex_value (firstn n s2) 0 with
-                   | None => Err ESyntax
-                   | Some v =>
-                     let s3 := skipn n s2 in
-                     if e =? 120 then
-                       if q_char q =? ch_dq then Err ESyntax
-                       else Ok (Z.of_N v, false, s3)
-                     else
-                       let vr := to_rune v in
-                       if (Z.of_N max_rune <? vr)%Z then Err ESyntax
-                       else Ok (vr, true, s3)
-                   end
-            else if in_range 48 55 e then
-              if q_char q =? ch_dq then Err ESyntax
-              else match s2 with
-                   | d1 :: d2 :: s3 =>
-                     if in_range 48 55 d1 && in_range 48 55 d2 then
-                       let v := ((e - 48) * 8 + (d1 - 48)) * 8 + (d2 - 48) in
-                       if 255 <? v then Err ESyntax else Ok (Z.of_N v, false, s3)
-                     else Err ESyntax
-                   | _ => Err ESyntax
-                   end
-            else if e =? ch_bs then simple ch_bs
-            else if (e =? ch_sq) || (e =? ch_dq) then
-              if negb (e =? q_char q) then Err ESyntax else simple e
-            else if e =? 40 then
-              match s2 with [] => Ok (terminated_by_expr, false, []) | _ => Err ESyntax end
-            else if e =? ch_cr then
-              match s2 with
-              | c2 :: s3 => if c2 =? ch_nl then Ok (escaped_newline, false, s3) else Err ESyntax
-              | [] => Err ESyntax
-              end
-            else if e =? ch_nl then Ok (escaped_newline, false, s2)
-            else Err ESyntax
+          else unquote_escape q e s2
         end
     end.
 
